@@ -230,8 +230,9 @@ func (n *networkService) AllocIP(ctx context.Context, r *rpc.AllocIPRequest) (*r
 		ResourceRequests: resourceRequests,
 	})
 	if err != nil {
+		// roll back what this request took, but keep what the pod already owns from a previous request
 		_ = n.eniMgr.Release(ctx, cni, &eni.ReleaseRequest{
-			NetworkResources: resp,
+			NetworkResources: excludeRecorded(resp, oldRes),
 		})
 		return nil, err
 	}
@@ -959,6 +960,28 @@ func parseNetworkResource(item daemon.ResourceItem) eni.NetworkResource {
 		}
 	}
 	return nil
+}
+
+// excludeRecorded drop the resources already recorded for the pod, a failed repeated request must not release them
+func excludeRecorded(resources []eni.NetworkResource, recorded daemon.PodResources) []eni.NetworkResource {
+	if len(recorded.Resources) == 0 {
+		return resources
+	}
+	var result []eni.NetworkResource
+	for _, res := range resources {
+		keep := true
+		for _, item := range res.ToStore() {
+			for _, old := range recorded.Resources {
+				if old.Type == item.Type && old.ENIID == item.ENIID && old.IPv4 == item.IPv4 && old.IPv6 == item.IPv6 {
+					keep = false
+				}
+			}
+		}
+		if keep {
+			result = append(result, res)
+		}
+	}
+	return result
 }
 
 func extractIPs(old daemon.ResourceItem) (ipv4, ipv6 netip.Addr, eniID string) {
